@@ -7,6 +7,13 @@ model (coq/model/Outcome.v), about which the C03 theorems are proved, must be pr
 transcription (coq/proofs/Outcome_sync.v: `combine2_gen_eq`), so a change to result.py that alters
 the behaviour of a `combine` method breaks a proof obligation, not only the differential check.
 
+Second stage (same file, Section GenTop): the module-level functions `combine` and
+`unwrapped_combine` with the predicates they call (is_ok, is_error, is_skip, is_unwrapped_ok) are
+transcribed too, as PARTIAL functions (`option`: None = the Python code would hold an object the
+model cannot represent, or raise); Outcome_sync.v proves `combine_gen V xs = Some (combine xs)` for
+every list and `unwrapped_combine_gen V us = Some (unwrapped_combine us)` for bare values and non-Ok
+outcomes.  `_OkData` must be textually the copy-and-append wrapper.
+
 Fail-closed: any Python construct outside the small subset below raises `Untranslatable`.
 Conventions (part of the trusted base):
   * an outcome object is a value of `outcome V`; attribute reads become the total accessors
@@ -226,6 +233,290 @@ Section Gen.
 '''
 
 
+
+# ---- second stage: the module-level functions ------------------------------------------------
+# combine / unwrapped_combine and the predicates they use (is_ok, is_error, is_skip, is_unwrapped_ok).
+# Expressions are (gallina_text, type, partial); a partial expression has Gallina type `option T`:
+# None stands for "the Python code would hold an object the model cannot represent, or raise"
+# (e.g. `[combined.data]` when data is the private _OkData, `.values` of a bare value, `Ok(x)` around
+# an outcome object, `.combine(x)` with a bare value).  Types: outcome | uout (an element handed to
+# unwrapped_combine: a bare value or an outcome) | olist | ulist | okdata | vlist | ostr | bool.
+
+PREDICATES = ["is_ok", "is_error", "is_skip", "is_unwrapped_ok"]
+_fresh = [0]
+
+
+def fresh(base="t"):
+    _fresh[0] += 1
+    return f"{base}{_fresh[0]}"
+
+
+def bind(parts, build):
+    names, wrappers = [], []
+    for txt, partial in parts:
+        if partial:
+            n = fresh()
+            wrappers.append((n, txt))
+            names.append(n)
+        else:
+            names.append(txt)
+    body, body_partial = build(names)
+    if not wrappers:
+        return body, body_partial
+    inner = body if body_partial else f"(Some {body})"
+    for n, txt in reversed(wrappers):
+        inner = f"(match {txt} with Some {n} => {inner} | None => None end)"
+    return inner, True
+
+
+def as_outcome(x):
+    text, t, partial = x
+    if t == "outcome":
+        return text, partial
+    if t == "uout" and not partial:
+        return f"(as_outcome {text})", True
+    raise Untranslatable(f"cannot use a {t} as an outcome")
+
+
+def t2_expr(e, env, preds):
+    if isinstance(e, ast.Name):
+        if e.id in env:
+            return env[e.id] + (False,)
+        bad(e, "unknown name")
+    if isinstance(e, ast.Constant) and isinstance(e.value, bool):
+        return ("true" if e.value else "false"), "bool", False
+    if isinstance(e, ast.UnaryOp) and isinstance(e.op, ast.Not):
+        return t2_test(e, env, preds), "bool", False
+    if isinstance(e, ast.Attribute):
+        x, t, partial = t2_expr(e.value, env, preds)
+        if partial:
+            bad(e, "attribute of a partial expression")
+        if t == "outcome" and e.attr == "data":
+            return f"(f_data {x})", "okdata", False
+        if t == "outcome" and e.attr == "location":
+            return f"(f_location {x})", "ostr", False
+        if t == "okdata" and e.attr == "values":
+            return f"(values_of {x})", "vlist", True
+        bad(e, "attribute")
+    if isinstance(e, ast.List) and len(e.elts) == 1:
+        x, t, partial = t2_expr(e.elts[0], env, preds)
+        if t == "okdata" and not partial:
+            return f"(boxed {x})", "vlist", True
+        bad(e, "list literal")
+    if isinstance(e, ast.IfExp):
+        c = t2_test(e.test, env, preds)
+        a, pa = as_outcome(t2_expr(e.body, env, preds))
+        b, pb = as_outcome(t2_expr(e.orelse, env, preds))
+        if pa or pb:
+            a = a if pa else f"(Some {a})"
+            b = b if pb else f"(Some {b})"
+        return f"(if {c} then {a} else {b})", "outcome", (pa or pb)
+    if isinstance(e, ast.Call):
+        f = e.func
+        if isinstance(f, ast.Name) and f.id in preds:
+            args = list(e.args) + [k.value for k in e.keywords if k.arg == "candidate"]
+            if len(args) != 1 or len(e.args) + len(e.keywords) != 1:
+                bad(e, "predicate call")
+            x, t, partial = t2_expr(args[0], env, preds)
+            if partial or t not in ("outcome", "uout"):
+                bad(e, "predicate argument")
+            return f"({f.id}_{'o' if t == 'outcome' else 'u'} {x})", "bool", False
+        if isinstance(f, ast.Name) and f.id in ("Skip", "DepSkip", "PermFail") and not e.args and not e.keywords:
+            return f"({f.id} None None)", "outcome", False
+        if isinstance(f, ast.Name) and f.id == "Ok":
+            kw = {k.arg: k.value for k in e.keywords}
+            if len(e.args) == 1 and not kw:
+                x, t, partial = t2_expr(e.args[0], env, preds)
+                if t == "uout" and not partial:
+                    return f"(wrap_val {x})", "outcome", True
+                bad(e, "Ok(x)")
+            if e.args or set(kw) - {"data", "location"} or "data" not in kw:
+                bad(e, "Ok(...) arguments")
+            d = t2_expr(kw["data"], env, preds)
+            loc = t2_expr(kw["location"], env, preds) if "location" in kw else ("None", "ostr", False)
+            if loc[1] != "ostr" or d[1] not in ("vlist", "okdata"):
+                bad(e, "Ok(...) argument types")
+            mk = (lambda n: (f"(Ok (Many {n[0]}) {n[1]})", False)) if d[1] == "vlist" else (lambda n: (f"(Ok {n[0]} {n[1]})", False))
+            text, partial = bind([(d[0], d[2]), (loc[0], loc[2])], mk)
+            return text, "outcome", partial
+        if isinstance(f, ast.Attribute) and f.attr == "combine" and len(e.args) == 1 and not e.keywords:
+            x, t, px = t2_expr(f.value, env, preds)
+            if t != "outcome":
+                bad(e, ".combine on a non-outcome")
+            y, py = as_outcome(t2_expr(e.args[0], env, preds))
+            text, partial = bind([(x, px), (y, py)], lambda n: (f"(combine2_gen V {n[0]} {n[1]})", False))
+            return text, "outcome", partial
+        if isinstance(f, ast.Name) and f.id == "reduce" and len(e.args) == 3 and not e.keywords \
+                and isinstance(e.args[0], ast.Lambda):
+            lam = e.args[0]
+            la = lam.args
+            if len(la.args) != 2 or la.vararg or la.kwarg or la.kwonlyargs or la.defaults:
+                bad(e, "reduce lambda")
+            it, tit, pit = t2_expr(e.args[1], env, preds)
+            init, tinit, pinit = t2_expr(e.args[2], env, preds)
+            if pit or pinit or tit not in ("olist", "ulist") or tinit != "outcome":
+                bad(e, "reduce arguments")
+            acc, el = la.args[0].arg, la.args[1].arg
+            env2 = dict(env)
+            env2[acc] = (f"l_{acc}", "outcome")
+            env2[el] = (f"l_{el}", "outcome" if tit == "olist" else "uout")
+            body, pb = as_outcome(t2_expr(lam.body, env2, preds))
+            body = body if pb else f"(Some {body})"
+            return (f"(fold_left (fun o_{acc} l_{el} => match o_{acc} with Some l_{acc} => {body} | None => None end) "
+                    f"{it} (Some {init}))"), "outcome", True
+    bad(e, "expression")
+
+
+def t2_test(t, env, preds):
+    if isinstance(t, ast.UnaryOp) and isinstance(t.op, ast.Not):
+        return f"(negb {t2_test(t.operand, env, preds)})"
+    if isinstance(t, ast.Call) and isinstance(t.func, ast.Name) and t.func.id == "isinstance" and len(t.args) == 2 \
+            and not t.keywords:
+        subj, cls = t.args
+        names = [cls] if isinstance(cls, ast.Name) else (list(cls.elts) if isinstance(cls, ast.Tuple) else bad(t))
+        ids = [n.id if isinstance(n, ast.Name) else bad(t, "isinstance class") for n in names]
+        x, tx, partial = t2_expr(subj, env, preds)
+        if partial:
+            bad(t, "isinstance of a partial expression")
+        if tx in ("outcome", "uout") and ids and all(i in CLASSES for i in ids):
+            return f"({'is_cls' if tx == 'outcome' else 'u_is_cls'} {x} [" + "; ".join("T" + i for i in ids) + "])"
+        if tx == "okdata" and ids == ["_OkData"]:
+            return f"(is_many {x})"
+        bad(t, "isinstance")
+    x, tx, partial = t2_expr(t, env, preds)
+    if partial:
+        bad(t, "partial test")
+    if tx == "bool":
+        return x
+    if tx in ("olist", "ulist"):
+        return f"(nonempty_list {x})"
+    bad(t, "test")
+
+
+def t2_stmts(stmts, env, preds, rtype, ind="  "):
+    """-> (text, partial)"""
+    if not stmts:
+        raise Untranslatable("control reaches the end of the function without a return")
+    s, rest = stmts[0], stmts[1:]
+    if isinstance(s, ast.Expr) and isinstance(s.value, ast.Constant):
+        return t2_stmts(rest, env, preds, rtype, ind)
+    if isinstance(s, ast.Return):
+        if s.value is None:
+            bad(s, "bare return")
+        x, t, partial = t2_expr(s.value, env, preds)
+        if rtype == "bool":
+            if t != "bool" or partial:
+                bad(s, "predicate returns a non-boolean")
+            return x, False
+        if rtype == "outcome":
+            if t != "outcome":
+                bad(s, "combine returns a non-outcome")
+            return x, partial
+        wrapc = {"outcome": "UNon", "vlist": "UList"}.get(t) or bad(s, "unwrapped_combine return type")
+        return bind([(x, partial)], lambda n: (f"({wrapc} {n[0]})", False))
+    if isinstance(s, ast.If):
+        c = t2_test(s.test, env, preds)
+        a, pa = t2_stmts(list(s.body) + ([] if always_returns(s.body) else rest), dict(env), preds, rtype, ind + "  ")
+        b, pb = t2_stmts(list(s.orelse) + rest, dict(env), preds, rtype, ind + "  ")
+        if pa or pb:
+            a = a if pa else f"(Some {a})"
+            b = b if pb else f"(Some {b})"
+        return f"(if {c}\n{ind} then {a}\n{ind} else {b})", (pa or pb)
+    if isinstance(s, ast.Assign) and len(s.targets) == 1 and isinstance(s.targets[0], ast.Name):
+        v = s.targets[0].id
+        x, t, partial = t2_expr(s.value, env, preds)
+        env = dict(env)
+        env[v] = (f"v_{v}", t)
+        body, pb = t2_stmts(rest, env, preds, rtype, ind)
+        if partial:
+            body = body if pb else f"(Some {body})"
+            return f"(match {x} with\n{ind} | Some v_{v} => {body}\n{ind} | None => None end)", True
+        return f"(let v_{v} := {x} in\n{ind}{body})", pb
+    bad(s, "statement")
+
+
+TOP_HEADER = """
+Section GenTop.
+  Variable V : Type.
+  Notation outcome := (outcome V).
+  Notation uoutcome := (uoutcome V).
+
+  (* isinstance(u, (A, B, ...)) where u may be a bare value *)
+  Definition u_is_cls (u : uoutcome) (ts : list tag) : bool :=
+    match u with UVal _ => false | UOut o => is_cls V o ts end.
+  Definition nonempty_list {A : Type} (l : list A) : bool := match l with [] => false | _ => true end.
+  (* partial operations: None = not representable / raises *)
+  Definition wrap_val (u : uoutcome) : option outcome :=          (* Ok(u) *)
+    match u with UVal v => Some (Ok (Single v) None) | UOut _ => None end.
+  Definition as_outcome (u : uoutcome) : option outcome :=        (* u used where an outcome is needed *)
+    match u with UOut o => Some o | UVal _ => None end.
+  Definition boxed (d : okdata V) : option (list V) :=            (* [d] *)
+    match d with Single v => Some [v] | Many _ => None end.
+  Definition values_of (d : okdata V) : option (list V) :=        (* d.values *)
+    match d with Many vs => Some vs | Single _ => None end.
+  Local Notation is_cls := (is_cls V).
+  Local Notation f_data := (f_data V).
+  Local Notation f_location := (f_location V).
+  Local Notation is_many := (is_many V).
+
+"""
+
+
+def translate_top(tree) -> str:
+    funcs = {n.name: n for n in tree.body if isinstance(n, ast.FunctionDef)}
+    out = [TOP_HEADER]
+    done = []
+    # predicates, in dependency order (a predicate may only call predicates already translated)
+    pending = [p for p in PREDICATES]
+    progress = True
+    while pending and progress:
+        progress = False
+        for pname in list(pending):
+            fn = funcs.get(pname) or bad(tree, f"function {pname} not found")
+            if len(fn.args.args) != 1 or fn.args.args[0].arg != "candidate" or fn.decorator_list:
+                raise Untranslatable(f"{pname} has an unexpected signature")
+            try:
+                texts = []
+                for suffix, ty in (("o", "outcome"), ("u", "uout")):
+                    body, partial = t2_stmts(list(fn.body), {"candidate": ("candidate", ty)}, done, "bool")
+                    texts.append(f"  (* {pname}, result.py line {fn.lineno} *)\n"
+                                 f"  Definition {pname}_{suffix} (candidate : {'outcome' if ty == 'outcome' else 'uoutcome'}) : bool :=\n  {body}.\n\n")
+            except Untranslatable:
+                continue
+            out += texts
+            done.append(pname)
+            pending.remove(pname)
+            progress = True
+    if pending:
+        # report the real reason
+        fn = funcs[pending[0]]
+        t2_stmts(list(fn.body), {"candidate": ("candidate", "uout")}, done, "bool")
+        raise Untranslatable(f"cannot order predicates {pending}")
+    for name, argty, rty, coqty in (("combine", "olist", "outcome", "option outcome"),
+                                    ("unwrapped_combine", "ulist", "uresult", "option (uresult V)")):
+        fn = funcs.get(name) or bad(tree, f"function {name} not found")
+        if [a.arg for a in fn.args.args] != ["outcomes"] or fn.args.vararg or fn.args.kwarg or fn.args.kwonlyargs \
+                or fn.decorator_list:
+            raise Untranslatable(f"{name} has an unexpected signature")
+        body, partial = t2_stmts(list(fn.body), {"outcomes": ("outcomes", argty)}, done, rty)
+        if not partial:
+            body = f"(Some {body})"
+        lty = "list outcome" if argty == "olist" else "list uoutcome"
+        out.append(f"  (* {name}, result.py line {fn.lineno} *)\n"
+                   f"  Definition {name}_gen (outcomes : {lty}) : {coqty} :=\n  {body}.\n\n")
+    out.append("End GenTop.\n")
+    # _OkData.append must be a pure copy-and-append (the class-level translation relies on it)
+    okd = [n for n in tree.body if isinstance(n, ast.ClassDef) and n.name == "_OkData"]
+    if len(okd) != 1:
+        raise Untranslatable("class _OkData not found")
+    want = ("def append(self, value):\n    new = self.values[:]\n    new.append(value)\n    return _OkData(new)",
+            "def __init__(self, values: list):\n    self.values = values")
+    got = {ast.unparse(m) for m in okd[0].body if isinstance(m, ast.FunctionDef)}
+    if got != set(want):
+        raise Untranslatable("_OkData is not the copy-and-append wrapper the translation assumes")
+    return "".join(out)
+
+
 def translate(src_text: str) -> str:
     tree = ast.parse(src_text)
     classes = {n.name: n for n in tree.body if isinstance(n, ast.ClassDef)}
@@ -246,6 +537,8 @@ def translate(src_text: str) -> str:
     out.append("  Definition combine2_gen (self other : outcome) : outcome :=\n    match self with\n"
                + "".join(f"    | {c} {'_ ' * (3 if c == 'Retry' else 2)}=> combine_{c} self other\n" for c in CLASSES)
                + "    end.\nEnd Gen.\n")
+    _fresh[0] = 0
+    out.append(translate_top(tree))
     return "".join(out)
 
 
